@@ -807,9 +807,20 @@ static void run_slot_hole(void)
 /* ---- C19: read-side sections in signal handlers ---------------------------------------------------------------------------- */
 #ifndef FLAVOR_QSBR
 #define N_HCNT 352
+#define N_EXITING(t) (370 + (t))
 static void sig_handler(void)
 {
-	int before = rcu_read_ongoing(), s, n = (int)vrt_note_inc(N_HCNT), a, b;
+	int before, s, n = (int)vrt_note_inc(N_HCNT), a, b;
+
+#ifndef FLAVOR_BP
+	/* memb / mb: only registered threads may run read-side sections; the application registered T0 and the reader.  A
+	 * process-directed signal handled by one of the library's own helper threads would run this section unprotected:
+	 * the library keeps every signal blocked in the threads it creates */
+	VRT_CHECK(vrt_note_get(N_REGTID(vrt_tid())) || vrt_tid() == 0,
+		  "signal handler ran on T%d, a thread the library created (call_rcu / defer_rcu helper) and that is not a registered reader: "
+		  "its read-side section is not covered by any grace period", vrt_tid());
+#endif
+	before = rcu_read_ongoing();
 
 	rcu_read_lock();
 	s = sec_begin();
@@ -818,7 +829,8 @@ static void sig_handler(void)
 
 		VRT_CHECK(!prev || prev == MY_SLOT(), "signal handler: reader slot of T%d changed from %#lx to %#lx (registered twice)",
 			  vrt_tid(), prev, MY_SLOT());
-		vrt_note_set(N_SLOT(vrt_tid()), MY_SLOT());
+		if (!vrt_note_get(N_EXITING(vrt_tid())))
+			vrt_note_set(N_SLOT(vrt_tid()), MY_SLOT());
 	}
 	a = LD(x);
 	b = LD(y);
@@ -874,6 +886,10 @@ static void *rd_sig(void *a)
 	rcu_read_unlock();
 	VRT_CHECK(!rcu_read_ongoing(), "sig: rcu_read_ongoing() true after the outermost unlock");
 	sig_block(SIG_BLOCK);
+	/* from here on the thread exits: bp unregisters it in the key destructor, and a handler that runs even later
+	 * legitimately registers it again, possibly in another slot */
+	vrt_note_set(N_SLOT(vrt_tid()), 0);
+	vrt_note_set(N_EXITING(vrt_tid()), 1);
 	reader_leave();
 	return NULL;
 }
@@ -881,10 +897,13 @@ static void *rd_sig(void *a)
 static struct rcu_head sig_head;
 static void sig_cb(struct rcu_head *h) { (void)h; vrt_note_inc(353); }
 
+static void dummy_defer_fct(void *p) { (void)p; }
+
 static void run_sig(void)
 {
 	pthread_t t;
-	int target = (int)vrt_param("target", 1);	/* 1: reader thread, 2: updater (main) thread, 3: both */
+	int target = (int)vrt_param("target", 1);	/* 1: reader thread, 2: updater (main) thread, 3: both, 7: every thread of the
+							 * process that does not block the signal (process-directed signal) */
 
 	sig_block(SIG_BLOCK);		/* inherited by the reader thread */
 #ifndef FLAVOR_BP
@@ -895,7 +914,16 @@ static void run_sig(void)
 		rcu_read_unlock();
 	}
 #endif
-	vrt_signal_setup((target & 1 ? 2u : 0u) | (target & 2 ? 1u : 0u), sig_handler);
+	if (vrt_param("helpers", 0)) {
+		/* library helper threads (call_rcu helper, defer_rcu reclaimer) exist and are created while the application
+		 * itself does not block the signal: the library must keep it blocked in them, they are not registered readers */
+		sig_block(SIG_UNBLOCK);
+		(void)get_default_call_rcu_data();
+		rcu_defer_register_thread();
+		defer_rcu(dummy_defer_fct, NULL);
+		sig_block(SIG_BLOCK);
+	}
+	vrt_signal_setup(target == 7 ? 0xffffu : ((target & 1 ? 2u : 0u) | (target & 2 ? 1u : 0u)), sig_handler);
 	pthread_create(&t, NULL, rd_sig, (void *)vrt_param("nest", 0));
 	sig_block(SIG_UNBLOCK);
 	wait_readers(1);
@@ -910,6 +938,8 @@ static void run_sig(void)
 	sig_block(SIG_BLOCK);
 	pthread_join(t, NULL);
 	vrt_signal_setup(0, NULL);
+	if (vrt_param("helpers", 0))
+		rcu_defer_unregister_thread();
 #ifndef FLAVOR_BP
 	rcu_unregister_thread();
 #endif
